@@ -295,3 +295,50 @@ FACETS.append(Facet('np/large-N-get_prob', _large.f_get_prob_large, strategy=lam
 FACETS.append(Facet('np/large-N-overlap', _large.f_overlap_large, strategy=lambda t: _large.st_big({'extra': st.sampled_from([0, 1, 3, 10]), 'r2': st.integers(0, 8), 'scramble': st.sampled_from([False, False, True])}, pure=True),
                     examples={'quick': 24, 'thorough': 600}, shards={'quick': 2, 'thorough': 8}))
 FACETS.append(Facet('np/large-N-expect', _large.f_expect_large, strategy=lambda t: _large.st_big(), examples={'quick': 40, 'thorough': 1500}, shards={'quick': 1, 'thorough': 4}))
+
+
+# ---- torchclifford's batched entry point vectorizable_expct(states, obs): per state the same value as state.expect(obs) = Tr(rho obs)
+def f_batched_expect(case):
+    N, r = case['N'], case['r']
+    Bk = B.backend('torch')
+    sm = Bk.mods()['s']
+    if not hasattr(sm, 'vectorizable_expct'):
+        return {'nt': False, 'labels': ['absent']}
+    states, rhos = [], []
+    for rows in case['states']:
+        stc = {'rows': rows, 'r': r}
+        states.append(C.dec_state('torch', stc)[0]); rhos.append(C.dense_state(stc))
+    L, K = ref.parse_list([t[0] for t in case['terms']])
+    cs = [gen.cplx(t[1]) for t in case['terms']]
+    kind = case['kind']
+    if kind == 'list':
+        K = (K // 2) * 2            # a PauliList of Hermitian observables
+        obj = Bk.plist(L, K)
+        exp = np.array([[np.trace(rho @ ref.dense(l, k)) for l, k in zip(L, K)] for rho in rhos])
+    elif kind == 'pauli':
+        obj = Bk.pauli(L[0], K[0])
+        exp = np.array([np.trace(rho @ ref.dense(L[0], K[0])) for rho in rhos])
+    else:
+        obj = Bk.poly(L, K, cs)
+        D = ref.dense_poly(L, K, cs)
+        exp = np.array([np.trace(rho @ D) for rho in rhos])
+    got = Bk.num(sm.vectorizable_expct(states, obj))
+    check(got.shape == exp.shape or got.reshape(exp.shape).shape == exp.shape, 'vectorizable_expct(%d states, %s) has shape %r expected %r' % (len(states), kind, got.shape, exp.shape), 'batched-shape')
+    got = got.reshape(exp.shape)
+    check(np.allclose(got, exp, atol=1e-5), 'vectorizable_expct(%d states of rank %d, %s %s) = %s, traces are %s' % (
+        len(states), r, kind, [(ref.show(l, k), c) for l, k, c in zip(L, K, cs)], got.tolist(), exp.tolist()), 'batched-expect')
+    single = np.array([Bk.num(S.expect(obj)) for S in states]).reshape(exp.shape)
+    check(np.allclose(single, exp, atol=1e-5), 'state.expect differs from the traces', 'expect-' + kind)
+    odd = bool((K % 2 == 1).any())
+    return {'nt': bool((np.abs(exp) > 1e-9).any()) and (odd or r > 0), 'labels': [kind, 'N=%d' % N, 'odd-phase' if odd else 'real-phase', 'batch=%d' % len(states)]}
+
+
+def st_batched_expect(hiN):
+    def inner(N):
+        return st.fixed_dictionaries({'N': st.just(N), 'r': st.integers(0, N), 'states': st.lists(gen.st_clifford_rows(N, max_word=3 * N), min_size=1, max_size=4),
+                                      'kind': st.sampled_from(['list', 'pauli', 'poly', 'poly']),
+                                      'terms': st.lists(st.tuples(gen.st_pauli(N), gen.st_coef(nonzero=True)).map(list), min_size=1, max_size=4)})
+    return st.integers(1, hiN).flatmap(inner)
+
+
+FACETS.append(Facet('torch/batched-expect', f_batched_expect, strategy=lambda t: st_batched_expect(3), examples={'quick': 300, 'thorough': 10000}, shards={'quick': 1, 'thorough': 4}, backend='torch'))
